@@ -811,7 +811,13 @@ func corpus() []storeSpec {
 	two := base
 	two.Metrics = []mSpec{{Name: q("c"), Prog: q("p.mtail"), Kind: "counter", Type: "int", Keys: []string{q("k")}, Source: q("p.mtail:3:9-9"),
 		Ls: []lsSpec{{Vals: []string{q("a")}, I: 11, T: 1700000000e9}, {Vals: []string{q("b")}, I: 22, T: 1700000005e9, Expiry: 5e9}}}}
-	return []storeSpec{hist, inf, two}
+	// the sanitisation collision of C22_sanitisation_collision_refuted: a.b / a_b
+	// (graphite, statsd) and a-b / a_b (collectd) share a path; tied to the code by
+	// the correspondence (the per-label-set oracle is outside its domain here)
+	col := base
+	col.Metrics = []mSpec{{Name: q("c"), Prog: q("p"), Kind: "counter", Type: "int", Keys: []string{q("k")}, Source: q(""),
+		Ls: []lsSpec{{Vals: []string{q("a.b")}, I: 1, T: 1700000000e9}, {Vals: []string{q("a_b")}, I: 2, T: 1700000000e9}, {Vals: []string{q("a-b")}, I: 3, T: 1700000000e9}}}}
+	return []storeSpec{hist, inf, two, col}
 }
 
 func main() {
